@@ -270,12 +270,29 @@ func c14Valid(c *vkit.Ctx, r *rand.Rand, i int, cfgs []jsonCfg) {
 	var gv any
 	doc := d
 	var p1, p2 string
-	if (f1 == "value" || f2 == "value") && (d.Kind == "obj" || d.Kind == "arr" || d.Kind == "num" || d.Kind == "bool" || d.Kind == "null") {
+	if (f1 == "value" || f2 == "value") && (d.Kind == "obj" || d.Kind == "arr" || d.Kind == "num" || d.Kind == "bool" || d.Kind == "null" || (d.Kind == "str" && i%3 == 0)) {
 		// a Go string / []byte is by API a JSON text, so the value form uses non-string roots;
 		// the document is then the standard encoding of the value, and the string/bytes forms carry
 		// exactly that text (escape style is part of the text, it is not re-rendered)
 		v, ok := goFromTree(d)
-		if ok {
+		if s, isStr := v.(string); ok && isStr {
+			// a POINTER to a string or to bytes is a Go value like any other (its standard
+			// encoding is a JSON string; base64 for bytes), not a JSON text
+			switch r.IntN(4) {
+			case 0:
+				v = &s
+			case 1:
+				p := &s
+				v = &p
+			case 2:
+				b := []byte(s)
+				v = &b
+			default:
+				var a any = s
+				v = &a
+			}
+			cl["go-value:pointer-to-string-or-bytes"] = true
+		} else if ok {
 			var kind string
 			v, kind = typedView(r, d, v)
 			cl["go-value:"+kind] = true
